@@ -835,6 +835,96 @@ func NilGuardEdges(fn *ssa.Function) Cut {
 	}
 	// nilTest: block b ends in a test of a "present" value against nil; the
 	// index of the successor taken when it is nil, or -1
+	// present: v is a value the code treats as present, or a field reached
+	// from one that is not the method's own receiver (req.Input of a
+	// request handed in; never b.nextCheckpoint)
+	var present func(v ssa.Value, d int) bool
+	present = func(v ssa.Value, d int) bool {
+		if types.Identical(v.Type(), types.Universe.Lookup("error").Type()) {
+			return false // an error that is nil is the ordinary case
+		}
+		if source(v) {
+			return true
+		}
+		if d > 3 {
+			return false
+		}
+		if ld, ok := v.(*ssa.UnOp); ok && ld.Op == token.MUL {
+			if fa, ok := ld.X.(*ssa.FieldAddr); ok {
+				if p, isP := fa.X.(*ssa.Parameter); isP && fn.Signature.Recv() != nil && len(fn.Params) > 0 && p == fn.Params[0] {
+					return false
+				}
+				return present(fa.X, d+1)
+			}
+		}
+		if f, ok := v.(*ssa.Field); ok {
+			return present(f.X, d+1)
+		}
+		return false
+	}
+	// condNil: for a condition that says "something that must be present is
+	// nil" (== nil; a disjunction of such tests) the successor index taken
+	// then is 0; for "everything is present" (!= nil; a conjunction) it is 1;
+	// -1 otherwise
+	var condNil func(c ssa.Value, d int) int
+	condNil = func(c ssa.Value, d int) int {
+		if d > 4 {
+			return -1
+		}
+		switch x := c.(type) {
+		case *ssa.BinOp:
+			if x.Op != token.EQL && x.Op != token.NEQ {
+				return -1
+			}
+			var v ssa.Value
+			switch {
+			case IsNil(x.Y):
+				v = x.X
+			case IsNil(x.X):
+				v = x.Y
+			default:
+				return -1
+			}
+			if !present(v, 0) {
+				return -1
+			}
+			if x.Op == token.NEQ {
+				return 1
+			}
+			return 0
+		case *ssa.UnOp:
+			if x.Op == token.NOT {
+				if k := condNil(x.X, d+1); k >= 0 {
+					return 1 - k
+				}
+			}
+		case *ssa.Phi:
+			kind := -1
+			for _, e := range x.Edges {
+				if b, isC := ConstBool(e); isC {
+					// false joins a conjunction, true a disjunction
+					k := 1
+					if b {
+						k = 0
+					}
+					if kind >= 0 && kind != k {
+						return -1
+					}
+					kind = k
+					continue
+				}
+				k := condNil(e, d+1)
+				if k < 0 || (kind >= 0 && kind != k) {
+					return -1
+				}
+				kind = k
+			}
+			return kind
+		}
+		return -1
+	}
+	// nilTest: block b ends in such a test; the index of the successor taken
+	// when something is missing, or -1
 	nilTest := func(b *ssa.BasicBlock) int {
 		if len(b.Instrs) == 0 || len(b.Succs) != 2 {
 			return -1
@@ -843,30 +933,7 @@ func NilGuardEdges(fn *ssa.Function) Cut {
 		if !ok {
 			return -1
 		}
-		bo, ok := iff.Cond.(*ssa.BinOp)
-		if !ok || (bo.Op != token.EQL && bo.Op != token.NEQ) {
-			return -1
-		}
-		var v ssa.Value
-		switch {
-		case IsNil(bo.Y):
-			v = bo.X
-		case IsNil(bo.X):
-			v = bo.Y
-		default:
-			return -1
-		}
-		if !source(v) {
-			return -1
-		}
-		// an error that is nil is the ordinary case, not a missing input
-		if types.Identical(v.Type(), types.Universe.Lookup("error").Type()) {
-			return -1
-		}
-		if bo.Op == token.NEQ {
-			return 1
-		}
-		return 0
+		return condNil(iff.Cond, 0)
 	}
 	// allNilTests: every way into s is the nil edge of such a test (the body
 	// of `if a == nil || b == nil { .. }`)
